@@ -125,6 +125,15 @@ verilog_keyword = [
   "wait_order", "wildcard", "with", "within"
 ]
 
+# SystemVerilog-2009 and SystemVerilog-2012 reserved keywords
+verilog_keyword += [
+  "accept_on", "checker", "endchecker", "eventually", "global", "implies",
+  "let", "nexttime", "reject_on", "restrict", "s_always", "s_eventually",
+  "s_nexttime", "s_until", "s_until_with", "strong", "sync_accept_on",
+  "sync_reject_on", "unique0", "until", "until_with", "untyped", "weak",
+  "implements", "interconnect", "nettype", "soft",
+]
+
 verilog_reserved = set( verilog_keyword )
 
 #-----------------------------------------------------------------------
